@@ -16,7 +16,6 @@ import (
 	"encoding/json"
 	"fmt"
 	"os"
-	"runtime/pprof"
 	"runtime"
 	"sort"
 	"strings"
@@ -215,6 +214,7 @@ type dump struct {
 	Accs    map[string]map[string]any   `json:"accs"`
 	NextNum int64                       `json:"nextnum"`
 	BankInv bool                        `json:"bankinv"`
+	Vs      map[string]any              `json:"-"`
 	bad     []string                    // raw well-formedness findings (own checks, independent of the repository's invariants)
 	authMsg string
 	bankMsg string
@@ -238,7 +238,7 @@ func rawDump(ctx sdk.Context, key store.StoreKey, names map[crypto.Address]strin
 	for _, n := range nameList {
 		d.Acct[n] = map[string]int64{"u": 0, "t": 0}
 		d.Split[n] = map[string]int64{"u": 0, "t": 0}
-		d.Accs[n] = map[string]any{"kind": "none", "num": -1}
+		d.Accs[n] = map[string]any{"kind": "none", "num": int64(-1)}
 	}
 	unit := func(what string, v int64) int64 {
 		if v%scale != 0 {
@@ -580,11 +580,6 @@ func replay(f *mbt.Flags) {
 
 func main() {
 	f := mbt.ParseFlags()
-	if pf := os.Getenv("C14_PROF"); pf != "" {
-		fh, _ := os.Create(pf)
-		pprof.StartCPUProfile(fh)
-		defer pprof.StopCPUProfile()
-	}
 	switch f.Mode {
 	case "replay":
 		replay(f)
